@@ -281,18 +281,19 @@ Definition check_c01case (cs : c01case) : list nat :=
      impl to_upper_triangular(M), to_symmetric(M)  (dense) or the exception class
      evaluations at each listed vector v (all binary ones and some with entries k/2):
         v, evaluate_QUBO(M,const,v), evaluate_QUBO(U,const,v), evaluate_QUBO(S,const,v)
+     the vectors at which the containers are evaluated (all binary ones and some with entries k/2)
      for each pattern string tried:
         the string, impl container fields (Q, const_qubo, J, h, const_ising) or the exception class,
-        and at each listed vector v:
-        v, container.evaluate_QUBO(v), container.evaluate_Ising(v)  (v used as it is),
+        and for each of those vectors v, in order:
+        container.evaluate_QUBO(v), container.evaluate_Ising(v)  (v used as it is),
         container.evaluate_Ising(x_to_s(v))                                               *)
 Definition mat_obs := result dmat.
 Definition cont_obs := result (dmat * Qc * dmat * dvec * Qc).
 Definition c13_meval := (dvec * Qc * Qc * Qc)%type.
-Definition c13_ceval := (dvec * Qc * Qc * Qc)%type.
+Definition c13_ceval := (Qc * Qc * Qc)%type.
 Definition c13_cont := (string * cont_obs * list c13_ceval)%type.
 Definition c13case :=
-  ((nat * nat) * dmat * Qc * mat_obs * mat_obs * list c13_meval * list c13_cont)%type.
+  ((nat * nat) * dmat * Qc * mat_obs * mat_obs * list c13_meval * list dvec * list c13_cont)%type.
 
 Definition mat_obs_eqb : mat_obs -> mat_obs -> bool := result_eqb dmat_eqb.
 Definition cont_obs_eqb : cont_obs -> cont_obs -> bool :=
@@ -321,41 +322,59 @@ Definition model_container (sh : nat * nat) (pat : string) (M : dmat) (c : Qc) :
 
 (* tags: 1 to_upper_triangular, 2 to_symmetric, 3 container fields, 4 evaluate_QUBO(M),
          5 evaluate_QUBO(U), 6 evaluate_QUBO(S), 7 container.evaluate_QUBO,
-         8 container.evaluate_Ising(v), 9 container.evaluate_Ising(x_to_s(v)) *)
-Definition check_c13_meval (n : nat) (M : dmat) (c : Qc) (e : c13_meval) : list nat :=
+         8 container.evaluate_Ising(v), 9 container.evaluate_Ising(x_to_s(v)),
+         10 number of container evaluations *)
+Definition check_c13_meval (n : nat) (Mf Uf Sf : nat -> nat -> Qc) (c : Qc) (e : c13_meval) : list nat :=
   match e with
   | (v, vm, vu, vs) =>
       let x := vec_of v in
-      let Mf := mat_of M in
       chk 4 (qc_eqb (eQ_Qc n Mf c x) vm) ++
-      chk 5 (qc_eqb (eQ_Qc n (upper_Qc Mf) c x) vu) ++
-      chk 6 (qc_eqb (eQ_Qc n (sym_Qc Mf) c x) vs)
+      chk 5 (qc_eqb (eQ_Qc n Uf c x) vu) ++
+      chk 6 (qc_eqb (eQ_Qc n Sf c x) vs)
   end.
 
-Definition check_c13_ceval (n : nat) (M : dmat) (c : Qc) (p : pattern) (e : c13_ceval) : list nat :=
-  match e with
-  | (v, vcq, vci, vcs) =>
+Definition check_c13_ceval (n : nat) (Qf Jf : nat -> nat -> Qc) (hf : nat -> Qc) (c ci : Qc)
+  (ve : dvec * c13_ceval) : list nat :=
+  match ve with
+  | (v, (vcq, vci, vcs)) =>
       let x := vec_of v in
-      let Mf := mat_of M in
-      chk 7 (qc_eqb (eQ_Qc n (cQ_Qc p Mf) c x) vcq) ++
-      chk 8 (qc_eqb (eI_Qc n (cJ_Qc p Mf) (ch_Qc n p Mf) (cc_Qc n p Mf c) x) vci) ++
-      chk 9 (qc_eqb (eI_Qc n (cJ_Qc p Mf) (ch_Qc n p Mf) (cc_Qc n p Mf c) (x2s_t x)) vcs)
+      chk 7 (qc_eqb (eQ_Qc n Qf c x) vcq) ++
+      chk 8 (qc_eqb (eI_Qc n Jf hf ci x) vci) ++
+      chk 9 (qc_eqb (eI_Qc n Jf hf ci (x2s_t x)) vcs)
   end.
 
-Definition check_c13_cont (sh : nat * nat) (M : dmat) (c : Qc) (k : c13_cont) : list nat :=
+(* the container's fields are tabulated once (dense_mat, dense_vec) and read back with mat_of / vec_of; on
+   indices below n this is the same function *)
+Definition check_c13_cont (sh : nat * nat) (M : dmat) (c : Qc) (vs : list dvec) (k : c13_cont) : list nat :=
   match k with
   | (pat, oc, evs) =>
       chk 3 (cont_obs_eqb (model_container sh pat M c) oc) ++
-      (if square sh then flat_map (check_c13_ceval (fst sh) M c (classify pat)) evs else [])
+      (if square sh then
+         let n := fst sh in
+         let p := classify pat in
+         let Mf := mat_of M in
+         let Qd := dense_mat n n (cQ_Qc p Mf) in
+         let Jd := dense_mat n n (cJ_Qc p Mf) in
+         let hd := dense_vec n (ch_Qc n p Mf) in
+         let ci := cc_Qc n p Mf c in
+         chk 10 (Nat.eqb (length evs) (length vs)) ++
+         flat_map (check_c13_ceval n (mat_of Qd) (mat_of Jd) (vec_of hd) c ci) (combine vs evs)
+       else [])
   end.
 
 Definition check_c13case (cs : c13case) : list nat :=
   match cs with
-  | (sh, M, c, ou, os, mevs, conts) =>
+  | (sh, M, c, ou, os, mevs, cvs, conts) =>
       chk 1 (mat_obs_eqb (model_upper sh M) ou) ++
       chk 2 (mat_obs_eqb (model_sym sh M) os) ++
-      (if square sh then flat_map (check_c13_meval (fst sh) M c) mevs else []) ++
-      flat_map (check_c13_cont sh M c) conts
+      (if square sh then
+         let n := fst sh in
+         let Mf := mat_of M in
+         let Ud := dense_mat n n (upper_Qc Mf) in
+         let Sd := dense_mat n n (sym_Qc Mf) in
+         flat_map (check_c13_meval n Mf (mat_of Ud) (mat_of Sd) c) mevs
+       else []) ++
+      flat_map (check_c13_cont sh M c cvs) conts
   end.
 
 (* the classification alone (strings that are not used to build a container) *)
